@@ -19,9 +19,9 @@ PROP = {
     # potrf.hpp and geqrf.hpp cannot be included in one translation unit at the pinned commit: the harness is built twice
     "harnesses": [
         {"name": "lapack_potrf", "src": "lapack.cpp", "flags": ["-O1", "-g", "-DLAPACK_PART=1"], "libs": LIBS, "env": ENV, "modes": ["x"], "driver": "mmdrv_lapack",
-         "programs": {"quick": 8000, "thorough": 240000}},
+         "programs": {"quick": 8000, "thorough": 360000}},
         {"name": "lapack_qr", "src": "lapack.cpp", "flags": ["-O1", "-g", "-DLAPACK_PART=2"], "libs": LIBS, "env": ENV, "modes": ["x"], "driver": "mmdrv_lapack",
-         "programs": {"quick": 8000, "thorough": 240000}},
+         "programs": {"quick": 8000, "thorough": 360000}},
     ],
     "hooks": ["probe_geqrf_inner_stride", "probe_syev_compiles"],
     "trusted_base": TRUSTED_COMMON + [
